@@ -12,6 +12,7 @@ CONSTANTS
   RecvApis = {"complete", "startread", "typed"}
   WriteSizes = {1, 2, 3, 4, 5, 6}
   StrSizes = {}
+  StrBytesSizes = {}
   ReadSizes = {0}
   MaxMsgs = 1
   MaxWrites = 6
